@@ -500,7 +500,9 @@ def r2c_shared_trunk(repo: Repo, rep):
         rep.check(R2, good, sl.site(p.ret_node), sl.fq, f"points axis 0 and out_points axis {axis} cut by the same window", f"points {wp[1]}, out {wo[1]}", f"{wp[1]}|{wo[1]}")
         if good:
             d = _digit(wp[1][0][1])
-            rep.check(R2, d is not None and d[0] == "raw" and d[1] == pn[5] and d[2] == pn[4] and d[3] == f"len({pn[1]})", sl.site(p.ret_node), sl.fq,
+            L = f"len({pn[1]})"
+            sizes = (pn[4], f"min({pn[4]}, {L})", f"min({L}, {pn[4]})")  # the requested batch size, possibly bounded by the tensor length
+            rep.check(R2, d is not None and d[0] == "raw" and d[1] == pn[5] and d[2] in sizes and d[3] == L, sl.site(p.ret_node), sl.fq,
                       "window = [idx*batch_size, (idx+1)*batch_size) modulo the tensor length", str(d), str(d))
     # __getitem__: calls with the right coupling and digits
     for p in paths(gi.node):
@@ -729,7 +731,81 @@ def r3b_shared_len(repo: Repo, rep):
                   "len formula: " + dump(p.ret)[:120])
 
 
+def r3c_unique_coverage(repo: Repo, rep):
+    import math
+    R = rep.rule("R-C16-3c", "DeepONetDataset_Unique: over one pass the wrap-around windows of __getitem__ present every (function, location) pair, also for batch sizes "
+                 "above the data-set size - by finite instantiation of the window bounds", floor=1,
+                 why="(k*B) % N .. ((k+1)*B) % N describes B consecutive rows only while B <= N: a larger batch size yields a window of B mod N rows")
+    ci = repo.cls(f"{DDL}.DeepONetDataset_Unique")
+    gi, ln = ci.methods.get("__getitem__"), ci.methods.get("__len__")
+    if gi is None or ln is None:
+        raise AnalysisError("DeepONetDataset_Unique.__getitem__/__len__ vanished")
+    rep.saw(gi), rep.saw(ln)
+    # the window bounds: the two sides of the straight / wrap-around tests `a < b`, per axis
+    bounds = {}
+    for p in paths(gi.node):
+        if p.ret is RAISE:
+            continue
+        for g, pol, k in p.guards:
+            if k == "if" and isinstance(g, ast.Compare) and len(g.ops) == 1 and isinstance(g.ops[0], (ast.Lt, ast.LtE)) and "%" in dump(g):
+                t = dump(g)
+                axis = "branch" if "branch_batch_size" in t and "trunk_batch_size" not in t else "trunk" if "trunk_batch_size" in t and "branch_batch_size" not in t else None
+                if axis:
+                    bounds[axis] = (g.left, g.comparators[0], isinstance(g.ops[0], ast.LtE))
+    lens = [p.ret for p in paths(ln.node, expand_self=False) if p.ret is not RAISE and p.ret is not None]
+    if set(bounds) != {"branch", "trunk"} or len(lens) != 1:
+        rep.undecided(R, gi.site(), gi.fq, "window tests `start < stop` of both axes and one length formula", f"axes {sorted(bounds)}, {len(lens)} length formulas")
+        return
+    len_attrs = {}
+    for p in paths(ln.node, expand_self=False):
+        len_attrs = {k: v for k, v in p.attrs.items()}
+        break
+    bad, n = [], 0
+    try:
+        for Nb, bb, Nt, tb in ((5, 2, 4, 3), (4, 4, 3, 1), (5, 7, 4, 4), (5, 5, 4, 6), (3, 4, 5, 7), (6, 4, 6, 9), (2, 1, 3, 3)):
+            base = {"len(self.branch_data_points)": Nb, "self.branch_batch_size": bb, "len(self.trunk_data_points[0])": Nt, "self.trunk_batch_size": tb}
+            derived = {}
+
+            def sym(t, idx=None):
+                if t == "idx":
+                    return idx
+                if t in base:
+                    return base[t]
+                t2 = t.replace(" ", "")
+                shapes = {"self.branch_data_points": (Nb,), "self.trunk_data_points": (Nb, Nt), "self.out_data_points": (Nb, Nt)}
+                for name, shp in shapes.items():
+                    for k, v in enumerate(shp):
+                        if t2 in (f"{name}.shape[{k}]", f"{name}.size({k})", "len(" + name + "[0]" * k + ")", "len(" + name + "[0]" * k + ")"):
+                            return v
+                if t in derived:
+                    return derived[t]
+                return None
+            for name, val in len_attrs.items():
+                derived[name] = _num_eval(val, lambda t: sym(t))
+            total = int(_num_eval(lens[0], lambda t: sym(t)))
+            seen = set()
+            for idx in range(total):
+                win = {}
+                for axis, N in (("branch", Nb), ("trunk", Nt)):
+                    a = int(_num_eval(bounds[axis][0], lambda t: sym(t, idx)))
+                    b = int(_num_eval(bounds[axis][1], lambda t: sym(t, idx)))
+                    straight = a <= b if bounds[axis][2] else a < b
+                    win[axis] = list(range(a, min(b, N))) if straight else list(range(a, N)) + list(range(0, min(b, N)))
+                seen |= {(i, j) for i in win["branch"] for j in win["trunk"]}
+            n += 1
+            if len(seen) != Nb * Nt:
+                bad.append((Nb, bb, Nt, tb, len(seen), Nb * Nt, total))
+    except (ValueError, TypeError) as err:
+        rep.undecided(R, gi.site(), gi.fq, "window bounds evaluable", str(err)[:100])
+        return
+    w = bad[0] if bad else None
+    rep.check(R, not bad, gi.site(), gi.fq, "every (function, location) pair is inside some batch window of a pass, on the grid of sizes",
+              f"fails for {len(bad)} of {n} instantiations, e.g. {w[0]} functions / batch {w[1]}, {w[2]} locations / batch {w[3]}: {w[4]} of {w[5]} pairs in {w[6]} batches" if w else f"{n} instantiations",
+              "window bounds: " + dump(bounds["branch"][0])[:60] + " .. " + dump(bounds["branch"][1])[:60])
+
+
 def run(repo: Repo, rep):
+    r3c_unique_coverage(repo, rep)
     r3b_shared_len(repo, rep)
     r1_points_dataset(repo, rep)
     r2_shuffle_coupling(repo, rep)
